@@ -267,8 +267,30 @@ def value_case(spec, ctx):
                   runtime.StampedReading(r["ts"], r["key"], _data=f.make_reading(r["key"], **r["z"]))
                   for j, r in enumerate(t["readings"])]
         proxy.log.clear()
-        with ctx.formak("python:tick:real-ekf", spec):
+        try:
             got = mf.tick(t["out"], control=control, readings=rs)
+        except (ctxmod.CaseTimeout, ctxmod.StopSearch):
+            raise
+        except Exception as tick_error:
+            # The FILTER refused to go on inside the tick (typically assert_valid_covariance after the covariance grew by
+            # 1e8 along an unstable backward move: C09's subject, not C11's). The tick is still judged: the calls it made,
+            # repeated by hand from the held estimate, must fail in the same call with the same exception type.
+            x_, P_, k_, err_at = hx, hP, 0, None
+            for n_, e in enumerate(list(proxy.log)):
+                try:
+                    if e[0] == "p":
+                        x_, P_ = f.process_model(e[1], x_, P_, control)
+                    else:
+                        r_ = (t["readings"] or [])[k_]
+                        k_ += 1
+                        x_, P_ = f.sensor_model(x_, P_, sensor_key=r_["key"], sensor_reading=f.make_reading(r_["key"], **r_["z"]))
+                except Exception as hand_error:
+                    err_at = (n_, type(hand_error))
+                    break
+            if err_at == (len(proxy.log) - 1, type(tick_error)):
+                ctx.skip(f"filter-raised-alike-in-tick-and-by-hand:{type(tick_error).__name__}")
+            with ctx.formak("python:tick:real-ekf", spec):
+                raise tick_error
         # schedule the runtime reported, split at the sensor updates
         segs, cur = [], []
         for e in proxy.log:
